@@ -162,11 +162,13 @@ def _call_record(defname, fn, where, mods, struct_env=None):
                 if not (isinstance(e, ast.Constant) and isinstance(e.value, int) and not isinstance(e.value, bool)):
                     raise GenError(f"{where}.request_data: non-literal before the last list element")
                 lits.append(e.value)
-            if not (elts and isinstance(elts[-1], ast.Name)):
-                raise GenError(f"{where}.request_data: last list element is not a name")
+            params = [a.arg for a in fn.args.args]
+            if not (elts and isinstance(elts[-1], ast.Name) and elts[-1].id in params):
+                raise GenError(f"{where}.request_data: last list element is not a parameter of the helper")
             extra.append(f"Definition {defname}_encode_members : list (option (list Z) * (list Z * Z)) := {_members_term(struct_env[v.func.value.id])}.\n")
             extra.append(f"Definition {defname}_encode_prefix : list Z := [{'; '.join(str(x) for x in lits)}].\n")
-            extra.append(f"Definition {defname}_encode_param : list Z := {zs(elts[-1].id)}.\n")
+            extra.append(f"(* the last encoded value is the helper's parameter number (self = 0): *)\n"
+                         f"Definition {defname}_encode_param : Z := {params.index(elts[-1].id)}.\n")
             rd = "None"
         else:
             raise GenError(f"{where}.request_data: unrecognised expression")
@@ -305,15 +307,26 @@ def gen_generic_facts():
     for h in ("get_plc_name", "get_plc_info", "get_plc_time", "set_plc_time"):
         fn = _find_method(lgx_tree, "LogixDriver", h)
         out.append(_call_record("call_" + h, fn, "LogixDriver." + h, mods, _local_structs(fn, "LogixDriver." + h)))
-    # get_plc_time reads tag.value["<key>"]: the key(s) used
+    # get_plc_time reads <result>.value["<key>"], <result> = the local the generic_message call is assigned to
+    # (whatever it is called): the key(s) used
     gpt = _find_method(lgx_tree, "LogixDriver", "get_plc_time")
+    results = set()
+    for n in ast.walk(gpt):
+        if isinstance(n, ast.Assign) and len(n.targets) == 1 and isinstance(n.targets[0], ast.Name) \
+                and n.value in _gm_calls(gpt):
+            results.add(n.targets[0].id)
+    if len(results) != 1:
+        raise GenError(f"get_plc_time: the generic_message result is assigned to {sorted(results)}")
+    result = next(iter(results))
     keys = set()
     for n in ast.walk(gpt):
         if isinstance(n, ast.Subscript) and isinstance(n.value, ast.Attribute) and n.value.attr == "value" \
-                and isinstance(n.value.value, ast.Name) and n.value.value.id == "tag" and isinstance(n.slice, ast.Constant):
+                and isinstance(n.value.value, ast.Name) and n.value.value.id == result:
+            if not isinstance(n.slice, ast.Constant):
+                raise GenError("get_plc_time: <result>.value[...] with a non-literal key")
             keys.add(n.slice.value)
     if len(keys) != 1 or not isinstance(next(iter(keys)), str):
-        raise GenError(f"get_plc_time: tag.value[...] keys are {sorted(map(repr, keys))}")
+        raise GenError(f"get_plc_time: <result>.value[...] keys are {sorted(map(repr, keys))}")
     out.append(f"Definition get_plc_time_key : list Z := {zs(next(iter(keys)))}.\n")
     # the decorated helper: get_plc_name is @with_forward_open
     gpn = _find_method(lgx_tree, "LogixDriver", "get_plc_name")
